@@ -9,6 +9,8 @@
 //! row = addr client(bytes) start expiry opts(0 | 1 bytes)
 #[path = "../util.rs"]
 mod util;
+#[path = "../poolgen.rs"]
+mod poolgen;
 use erbium::dhcp::pool;
 use std::io::Write;
 use util::*;
@@ -350,6 +352,13 @@ pub fn run(args: &Args, out: &mut dyn Write) -> Stats {
             let mut c = Cur(&toks, 0);
             let done = (|| {
                 match c.n()? {
+                    2 => {
+                        let t = poolgen::replay_case(&toks[1..], &mut stats)?;
+                        let mut x = Toks::new();
+                        x.n(2);
+                        x.append(&t);
+                        Some(x)
+                    }
                     1 => {
                         let s = get_store(&mut c)?;
                         let k = c.n()?;
@@ -366,6 +375,35 @@ pub fn run(args: &Args, out: &mut dyn Write) -> Stats {
         }
         let _ = std::fs::remove_file(&path);
         return stats;
+    }
+    // kind 2: whole DHCP histories on a file store with close/reopen events (generator of C01);
+    // every line is prefixed with the kind
+    {
+        struct Prefix<'a>(&'a mut dyn Write, bool);
+        impl<'a> Write for Prefix<'a> {
+            fn write(&mut self, buf: &[u8]) -> std::io::Result<usize> {
+                for &b in buf {
+                    if self.1 {
+                        self.0.write_all(b"2 ")?;
+                        self.1 = false;
+                    }
+                    self.0.write_all(&[b])?;
+                    if b == b'\n' {
+                        self.1 = true;
+                    }
+                }
+                Ok(buf.len())
+            }
+            fn flush(&mut self) -> std::io::Result<()> {
+                self.0.flush()
+            }
+        }
+        let sub = Args { seed: args.seed, n: args.n * 2, tier: args.tier.clone(), replay: None, extra: vec!["--no-exhaustive".into()] };
+        let mut pw = Prefix(out, true);
+        let st = poolgen::run("C18", &sub, &mut pw);
+        for (k, v) in st.counts {
+            stats.add(&format!("history.{}", k), v);
+        }
     }
     let mut r = Rng::new(args.seed);
     for _ in 0..args.n {
